@@ -1272,8 +1272,10 @@ func contract_generateStmts(varPool *VarPool, pkg string, injector *Injector, im
 func inv_generateStmts(varPool *VarPool, injector *Injector, imports map[string]*Import, stmts []ast.Stmt, hasChains bool) {
 	vs.Invariant("pool_inv", poolInv(varPool))
 	vs.Invariant("names_stable", namesAreStable())
-	vs.Invariant("still_ready", injectorArgsReady(injector) && returnParamReady(injector) &&
-		vs.Forall(len(injector.Stmts), func(i int) bool { return topStmtReady(injector.Stmts[i]) }) && fallibleOnlyIfErrorResult(injector))
+	vs.Invariant("args_still_ready", injectorArgsReady(injector))
+	vs.Invariant("return_still_ready", returnParamReady(injector))
+	vs.Invariant("statements_still_ready", vs.Forall(len(injector.Stmts), func(i int) bool { return topStmtReady(injector.Stmts[i]) }))
+	vs.Invariant("fallible_still_covered", fallibleOnlyIfErrorResult(injector))
 	vs.Invariant("prologue_kept", vs.Implies(hasChains, len(stmts) >= 2 && isVarBlock(stmts[0]) &&
 		everyVarDeclared(injector, len(injector.Vars), varBlockSpecs(stmts[0])) &&
 		(isEgPlain(stmts[1]) || isEgDerivedFromSomeContext(stmts[1]))))
